@@ -2,12 +2,14 @@ module verif/harness
 
 go 1.23.2
 
-require github.com/AdguardTeam/urlfilter v0.0.0
+require (
+	github.com/AdguardTeam/urlfilter v0.0.0
+	github.com/miekg/dns v1.1.61
+	golang.org/x/net v0.29.0
+)
 
 require (
 	github.com/AdguardTeam/golibs v0.29.0 // indirect
-	github.com/miekg/dns v1.1.61 // indirect
-	golang.org/x/net v0.29.0 // indirect
 	golang.org/x/sys v0.25.0 // indirect
 )
 
